@@ -224,6 +224,7 @@ structure GoodGatePy (N : Nat) (g : Gate) : Prop where
   nums : ∀ x ∈ argNums g.arg, isPyOut x.txt = true
   present : argOk g.arg = true
   noClassical : g.cctrl = none ∨ g.cctrl = some []
+  ctrlOnes : cvOk g = true
 
 def PyCircuit (c : Circuit) : Prop :=
   ∀ op ∈ c.ops, ∃ g, op = .gate g ∧ GoodGatePy c.N g
@@ -250,6 +251,7 @@ theorem goodGate_out_of_py (hfix : Gen.exportPadsExponent = true) {N : Nat} {g :
     simp only [Gate.out, argOk_out]
     exact h.present
   noClassical := h.noClassical
+  ctrlOnes := by simpa [cvOk, Gate.out] using h.ctrlOnes
 
 theorem goodCircuit_out_of_py (hfix : Gen.exportPadsExponent = true) {c : Circuit}
     (h : PyCircuit c) : GoodCircuit c.out := by
